@@ -392,6 +392,11 @@ loop:
 			}
 			if m.ColDiff != nil {
 				cd = m.ColDiff
+				// as `wrgl merge --no-gui` does: the column list and key are asked for as soon as the first message is in
+				if cols := merger.Columns(nil); len(cols) != cd.Len() {
+					return nil, fmt.Errorf("Merger.Columns right after the first message lists %d columns, the column diff has %d", len(cols), cd.Len())
+				}
+				_ = merger.PK()
 				continue
 			}
 			conflicts = append(conflicts, m)
